@@ -349,6 +349,24 @@ def emit(lib):
         f.write("\n")
 
 
+def emit_table():
+    """spec/Libs.tla: every library in one table, selected by the LibName constant of a model.
+    (TLC re-evaluates a definition reached through a cfg override `C <- Def` on every reference;
+    a table looked up from a constant-level definition is evaluated once.)"""
+    fields = ["Pkgs", "PkgKey", "PkgImports", "PkgExports", "Kinds", "ImportNames", "ExportNames",
+              "DefNames", "ValidNames", "DefClass", "DefDeps", "NameInfo"]
+    t = ["---- MODULE Libs ----", "\\* GENERATED by lib/universe.py -- do not edit",
+         "EXTENDS TLC, " + ", ".join(f"Lib_{n}" for n in LIBS)]
+    rows = []
+    for n in LIBS:
+        rows.append(f'"{n}" :> [' + ", ".join(f"{f} |-> L_{n}_{f}" for f in fields) + "]")
+    t.append("LibTable == (" + "\n          @@ ".join(rows) + ")")
+    t.append("====")
+    with open(os.path.join(ROOT, "spec", "Libs.tla"), "w") as f:
+        f.write("\n".join(t) + "\n")
+
+
 if __name__ == "__main__":
     for n in sys.argv[1:] or LIBS.keys():
         emit(LIBS[n]())
+    emit_table()
